@@ -40,3 +40,24 @@ def register(add, NOTE):
         "by sphere quadrature of the real gain table inside the property's thin-wire domain.",
         "Rocq proof (energy identity) + extracted formulas + correspondence; quadrature oracle for the numerical clause", "DESIGN.md §6 C01",
         note=NOTE + " PARTIAL as stated in the level text.")
+
+    add("C12",
+        "Theorems for every list of objects and every numeric instance (binary64 included): pulse count = sum over objects of "
+        "(segments-1) + [end grounded] + [end joined] with each joined end owned by exactly one EARLIER end (a junction of k ends has k-1 "
+        "pulses); numbering without gaps in object order (q-th pulse of object i is global start_i + q, belongs to i); interior pulses sit on "
+        "the joint of the two segments they are reported with; an end is joined exactly when it is identical to / within the tolerance of "
+        "an earlier registered end (dictionary semantics of the scan, first match wins). The executable model is tied to "
+        "compute_connections/Pulse by a correspondence on random wire graphs with perturbed ends (exact on indices, 1e-12 on points).",
+        "Rocq proof (list induction over the two-phase topology model) + vm_compute correspondence", "DESIGN.md §6 C12, App. A.1")
+    add("C17",
+        "Theorems: per-object address (k, tag) = global index start + k = k-th row of that object's block; both forms name the same pulse; "
+        "all-of-object = the object's contiguous block, NoDup; all = 0..N-1 each once; junction pulses belong to the later object; automatic "
+        "tags continue after the largest explicit tag. Tied to register_source/register_load/compute_tags by correspondence (valid and "
+        "invalid requests) on graphs with explicit, permuted, gapped, mixed and automatic tags.",
+        "Rocq proof + vm_compute correspondence", "DESIGN.md §6 C17")
+    add("C09",
+        "Theorem (all wire graphs, all current vectors): owner total and joiners' lines, counted into the junction, cancel; the printed owner "
+        "line equals that total at second ends and for single joiners; refutation witness for the first-end overwrite (recorded known "
+        "finding, pinned by golden files); free end -> E line, joined end -> own junction pulse, grounded end -> no line. The model of the "
+        "E/J lines is tied to currents_as_mininec by correspondence with injected random complex currents.",
+        "Rocq proof over topology + report model + vm_compute correspondence", "DESIGN.md §6 C09")
